@@ -139,4 +139,17 @@ CLAIMS = {
               "rule), stim's CircuitInstruction/target_rec semantics."),
         technique="static analysis: literal table evaluation vs. spec, exhaustive case table of the walk, affine normal forms of record offsets",
     ),
+    "C12": dict(
+        text=("Every index quantity is piecewise affine in (start S, heralded h in {0,1}, rounds n >= 0), so the property is decided "
+              "exactly: each getter of the repetition kernel is normalised to an index interval in all 18 regions (h x {n=0, n=1, n=k+2 "
+              "with k >= 0 symbolic} x {data, ancilla, foreign qubit}) -- max()/comparisons resolved by the sign of affine forms over the "
+              "non-negative region symbol -- and compared with the tiling layout (heralded = S iff h; stabilisers = S+h+[0..n-2]; final = "
+              "stop = S+h+max(0,n-1); nothing for an ancilla's final at n=0 and for foreign qubits), which implies inside-the-kernel, "
+              "pairwise disjoint and covering; the six calibration getters are consecutive from S in the documented order; kernels are "
+              "chained previous stop + 1 by both chain builders; repetitions are exact translates by last.stop - first.start + 1; every "
+              "experiment getter slices the matching category; the estimate divides by the same cycle length and asserts exactness."),
+        note=("Assumption: numpy broadcasting of scalar + asarray(range). A vectorised rewrite of create_sliced_arrays is outside the "
+              "normalisable fragment (exit 2, undecided). GeneralCalibrationIndexKernel is outside the anchors. Trusted: range/list semantics."),
+        technique="static analysis: piecewise-affine normal forms over symbolic regions (no solver: coefficient-wise sign decisions)",
+    ),
 }
